@@ -24,6 +24,9 @@ THEOREMS = [
     "C03_no_bad_store_step",
     "C03_no_bad_store",
     "C03_refused_assignment_noop",
+    "C03_bad_rejected",
+    "C03_forward_checked",
+    "C03_refusal_kind",
     "C03_activate_witness",
 ]
 RULE = (
@@ -47,7 +50,9 @@ TRUSTED = [
 ]
 ASSUMPTIONS = [
     "Node.run with default flags (execute() / check_readiness=False / fetch_input=False switch the gate off by design)",
-    "cache off for the consumer nodes (a re-run after a refused run short-circuits in the cache: C05's finding)",
+    "cache off for the consumer nodes: with the cache a re-run on unchanged inputs returns the stored outputs without "
+    "invoking the function (allowed by the statement's `only if`, but it would hide the gate from observation; the "
+    "cache itself is C05's subject)",
     "wrapped functions are total here (raising functions are C06's subject)",
     "toggling strict hints on and re-assigning hints are not assignment paths (C03_activate_witness)",
     "__setstate__ is not a public assignment path",
@@ -734,6 +739,39 @@ def _winner(stamps, vals, i, partners):
     return None if best is None else best[1]
 
 
+def _items(nodes, op):
+    """(channel, argument) pairs of a run / setinputs op in the order the property's reading delivers them:
+    explicit keywords first, then positional values bound to the leading labels"""
+    n = op[1]
+    labs = [lab for lab, _h in SPECS[nodes[n]["spec"]][0]]
+    items = [(ch_of(nodes, n, lab), a) for lab, a in op[2]]
+    items += [(ch_of(nodes, n, lab), a) for lab, a in zip(labs, op[3])]
+    return items
+
+
+def _deliver(chans, ctx, pre, stamps, k, items, ev, partners):
+    """deliver the items one after the other (values through the specified setter, channels by connecting);
+    returns (error name | None, stamps including the connections made here)"""
+    st2 = dict(stamps)
+    for pos, (c, a) in enumerate(items):
+        if isinstance(a, str) and a.startswith("@"):
+            o = int(a[1:])
+            if o in partners.setdefault(c, list(pre["conns"][c])):
+                continue
+            hi, ho = chans[c]["hint"], chans[o]["hint"]
+            if chans[o]["panel"] != "out":
+                return "Type", st2
+            if hi is not None and ho is not None and pre["strict"][c] and not hint_leq(ho, hi):
+                return "Conn", st2
+            partners[c].append(o)
+            st2[(c, o)] = (k, pos)
+        else:
+            err = _spec_set(ctx, ev, c, a)
+            if err:
+                return err, st2
+    return None, st2
+
+
 def _f(clause, k, op, detail, **extra):
     sig = {"clause": clause, "trigger": op[0]}
     sig.update(extra)
@@ -768,33 +806,34 @@ def oracle(case, r):
                     fails.append(_f("fetch-priority", k, op, f"values {qv} expected {ev}"))
                 if (err is None) != (res == "ok"):
                     fails.append(_f("fetch-priority", k, op, f"outcome {res} expected {err or 'ok'}"))
+        if kind == "fetchall":
+            # every input of the panel, each taking its most recent upstream holding data
+            ev = list(pv)
+            err = None
+            for i in nodes[op[1]]["ins"]:
+                w = _winner(stamps, ev, i, pre["conns"][i])
+                if w is not None:
+                    err = _spec_set(ctx, ev, i, ev[w])
+                    if err:
+                        break
+            if err is None and res == "ok" and qv != ev:
+                fails.append(_f("fetch-priority", k, op, f"values {qv} expected {ev}"))
+            if (err is None) != (res == "ok"):
+                fails.append(_f("fetch-priority", k, op, f"outcome {res} expected {err or 'ok'}"))
+        if kind == "setinputs":
+            # keyword / positional delivery without a run: typed stores through the same setter
+            ev = list(pv)
+            err, _st2 = _deliver(chans, ctx, pre, stamps, k, _items(nodes, op), ev, {})
+            if err is None and res == "ok" and qv != ev:
+                fails.append(_f("assignment-effect", k, op, f"values {qv} expected {ev}"))
+            if (err is None) != (res == "ok"):
+                fails.append(_f("assignment-effect", k, op, f"outcome {res} expected {err or 'ok'}"))
         if kind == "run":
             n = op[1]
             node = nodes[n]
-            labs = [lab for lab, _h in SPECS[node["spec"]][0]]
-            items = [(ch_of(nodes, n, lab), a) for lab, a in op[2]]
-            items += [(ch_of(nodes, n, lab), a) for lab, a in zip(labs, op[3])]
             ev = list(pv)
             partners = {i: list(pre["conns"][i]) for i in node["ins"]}
-            st2 = dict(stamps)
-            err = None
-            for pos, (c, a) in enumerate(items):
-                if isinstance(a, str) and a.startswith("@"):
-                    o = int(a[1:])
-                    if o in partners[c]:
-                        continue
-                    hi, ho = chans[c]["hint"], chans[o]["hint"]
-                    if chans[o]["panel"] != "out":
-                        err = "Type"
-                    elif hi is not None and ho is not None and pre["strict"][c] and not hint_leq(ho, hi):
-                        err = "Conn"
-                    else:
-                        partners[c].append(o)
-                        st2[(c, o)] = (k, pos)
-                else:
-                    err = _spec_set(ctx, ev, c, a)
-                if err:
-                    break
+            err, st2 = _deliver(chans, ctx, pre, stamps, k, _items(nodes, op), ev, partners)
             if err is None:
                 for i in node["ins"]:
                     w = _winner(st2, ev, i, partners[i])
@@ -844,11 +883,7 @@ def oracle(case, r):
         # ---- keep the oracle's own time stamps: partners by set difference, never by list position
         order = {}
         if kind in ("run", "setinputs"):
-            n = op[1]
-            labs = [lab for lab, _h in SPECS[nodes[n]["spec"]][0]]
-            items = [(ch_of(nodes, n, lab), a) for lab, a in op[2]]
-            items += [(ch_of(nodes, n, lab), a) for lab, a in zip(labs, op[3])]
-            for pos, (c, a) in enumerate(items):
+            for pos, (c, a) in enumerate(_items(nodes, op)):
                 if isinstance(a, str) and a.startswith("@"):
                     order[(c, int(a[1:]))] = pos
         for c in range(len(chans)):
